@@ -106,11 +106,17 @@ def run(ctx):
     else:
         v = rets[0].ast.value
         okk = isinstance(v, ast.Call) and isinstance(v.func, ast.Call) and call_name(v.func) == "PowerDistributor" \
-            and [src(x) for x in v.func.args] == ["domain", "power_domain"] and len(v.args) == 1 and isinstance(v.args[0], ast.Name)
+            and len(v.func.args) == 2 and src(v.func.args[0]) == cpf.params()[0] and isinstance(v.func.args[1], ast.Name) \
+            and len(v.args) == 1 and isinstance(v.args[0], ast.Name)
+        pdn = v.func.args[1].id if okk else None
+        if okk:
+            pdefs = sorted(src(cfg.nodes[d].ast.value) for d in rd[rets[0].id].get(pdn, frozenset())
+                           if cfg.nodes[d].kind == "stmt" and isinstance(cfg.nodes[d].ast, ast.Assign))
+            okk = pdefs == sorted([f"{cpf.params()[1]}.domain[0]", f"PowerSpace({cpf.params()[0]})"])
         ctx.check("R10.2", key, okk, src(v), cpf, rets[0].ast)
         if okk:
             fp = v.args[0].id
             defs = rd[rets[0].id].get(fp, frozenset())
             srcs = sorted(src(cfg.nodes[d].ast.value) for d in defs if cfg.nodes[d].kind == "stmt" and isinstance(cfg.nodes[d].ast, ast.Assign))
             ctx.check("R10.2", f"{cpf.key}::the distributed field is the given spectrum (or its evaluation on the power space), nothing else",
-                      srcs == sorted(["power_spectrum", "PS_field(power_domain, power_spectrum)"]), str(srcs), cpf)
+                      srcs == sorted([cpf.params()[1], f"PS_field({pdn}, {cpf.params()[1]})"]), str(srcs), cpf)
